@@ -398,11 +398,60 @@ func TestC04(t *testing.T) {
 			depth int
 		}{"gob", d})
 	}
+	// chains: for every vocabulary type name x every item-valued term of its Go type, a document of that type nested 28 deep
+	// through that term (single object and one-element array alternate); a loader or comparator that does the work of a level
+	// twice needs 2^28 steps and trips the watchdog
+	type chainCell struct{ typ, term string }
+	var chainCells []chainCell
+	for _, ti := range vocab.GroundTruth {
+		for _, f := range vocab.Fields(vocab.StructType(ti.GoType)) {
+			if f.Kind == vocab.KItem || f.Kind == vocab.KItems {
+				chainCells = append(chainCells, chainCell{string(ti.Name), f.Term})
+			}
+		}
+	}
+	chainDoc := func(c chainCell, depth int) []byte {
+		var b bytes.Buffer
+		for i := 0; i < depth; i++ {
+			fmt.Fprintf(&b, `{"id":"https://example.com/n/%d","type":%q,%q:`, i, c.typ, c.term)
+			if i%2 == 1 {
+				b.WriteString("[")
+			}
+		}
+		b.WriteString(`"https://example.com/leaf"`)
+		for i := depth - 1; i >= 0; i-- {
+			if i%2 == 1 {
+				b.WriteString("]")
+			}
+			b.WriteString("}")
+		}
+		return b.Bytes()
+	}
 	nestEntries := []string{"UnmarshalJSON", "(*Object).UnmarshalJSON", "(*Activity).UnmarshalJSON", "(*OrderedCollection).UnmarshalJSON", "(*NaturalLanguageValues).UnmarshalJSON", "(*IRIs).UnmarshalJSON",
 		"(*ItemCollection).UnmarshalJSON", "JSONLoadItem", "JSONGetItems", "GobDecode", "(*Activity).GobDecode"}
 	entryByName := map[string]c04Entry{}
 	for _, e := range c04Entries {
 		entryByName[e.name] = e
+	}
+	if childLayer() == "chains" {
+		hangs, _ := strconv.Atoi(os.Getenv("VERIF_CHILD_RESTARTS")) // hangs seen by earlier child processes of this layer
+		runChild(len(chainCells), func(i int) ([]keyed, string) {
+			c := chainCells[i]
+			info := fmt.Sprintf("%s via %s", c.typ, c.term)
+			if hangs >= 5 {
+				return nil, "skipped after 5 hangs in this layer (each costs a 10 s watchdog): " + info
+			}
+			ds, oc := c04Call(entryByName["UnmarshalJSON"], chainDoc(c, 28), false)
+			for k := range ds {
+				ds[k].Key += " chain:" + c.typ + "." + c.term
+			}
+			if oc == "hang" {
+				hangs++
+				return ds, "RESTART after a hang: " + info
+			}
+			return ds, info
+		})
+		return
 	}
 	if childLayer() == "nesting" {
 		runChild(len(nestCells), func(i int) ([]keyed, string) {
@@ -436,7 +485,7 @@ func TestC04(t *testing.T) {
 	defer r.Close(t)
 	r.Rule("tiny: the empty input and every 1-byte input at every decode entry point (exhaustive); hostile: ~100 hand-written kind-confused / out-of-range / malformed documents at every entry point; truncation: every prefix of " +
 		"the seed documents (19 repository mocks, one every-field-set document per type) and of the gob encodings of every-field-set values, at the matching entry points; nesting: arrays/objects/lists/language maps/" +
-		"collections nested 1..200000 deep and gob values nested up to 18 deep, in a child process (a stack overflow is fatal) with an allocation bound; structure-aware random: seeds with a random node replaced by " +
+		"collections nested 1..200000 deep, chains (every type name x every item-valued term nested 28 deep, ~1800 documents) and gob values nested up to 18 deep, in a child process (a stack overflow is fatal) with an allocation bound; structure-aware random: seeds with a random node replaced by " +
 		"another kind, duplicated members, huge numbers, invalid UTF-8, byte flips and rewritten length bytes in gob streams; corpus: saved fuzz inputs; thorough adds a native coverage-guided fuzz campaign. " +
 		"Oracle: no panic, returns within a 10 s watchdog, allocation <= 64 MiB + 4 KiB per input byte (measured layers), and the follow-up battery (IsNil, NotEmpty, predicates, ItemsEqual(v,v), both encoders, fmt, " +
 		"DerefItem) on every value returned without error. non-trivial = the input is accepted by the underlying parser (JSON parses / gob decodes) and reaches a loader; distinct by entry point + input bytes")
@@ -605,6 +654,31 @@ func TestC04(t *testing.T) {
 		}
 		r.Cells(len(nestCells), len(nestCells))
 		r.Exhaustive("nesting", true)
+	}
+
+	if r.WantLayer("chains", true) && !r.Replaying() {
+		results := runInChildren(t, "chains", len(chainCells), 15*time.Minute)
+		hangs := 0
+		for i, res := range results {
+			cell := fmt.Sprintf("chain %s via %s depth 28", chainCells[i].typ, chainCells[i].term)
+			r.Case(cell, true, "chains")
+			if i%97 == 0 {
+				r.Sample(cell, map[string]interface{}{"layer": "chains", "type": chainCells[i].typ, "term": chainCells[i].term, "document": clipBytes(chainDoc(chainCells[i], 3), 300)})
+			}
+			if res.Fatal != "" {
+				r.Report("chains", cell, fmt.Sprintf("total fatal chain:%s.%s", chainCells[i].typ, chainCells[i].term), res.Fatal, cell)
+				continue
+			}
+			for _, d := range res.Diffs {
+				if strings.Contains(d.Key, "hang") {
+					hangs++
+				}
+				r.Report("chains", cell, d.Key, d.Detail, cell)
+			}
+		}
+		r.Cells(len(chainCells), len(chainCells))
+		r.Exhaustive("chains", true)
+		r.Note("chain_cells", len(chainCells))
 	}
 
 	if r.WantLayer("corpus", true) {
